@@ -172,11 +172,27 @@ def var_modifiers(var_name: str) -> List[str]:
     :param var_name: the name to check
     :return: a list of the modifiers, or an empty list
     """
+    if not isinstance(var_name, str):
+        return []
     if var_name.startswith("__"):
         return ['private']
     if var_name.startswith("_"):
         return ['protected']
     return []
+
+
+def safe_str(value) -> str:
+    """
+    Convert a value to a string, without failing if the value has a broken __str__ function.
+
+    :param value: the value
+    :return: the result of str(value), or a place holder if the value cannot be converted to a string
+    """
+    try:
+        return str(value)
+    except BaseException:
+        # we cannot know what user code will raise, and it must never abort the collection of the other variables
+        return f'{type(value)}@{id(value)}'
 
 
 def variable_to_string(variable_type, var_value):
@@ -190,18 +206,18 @@ def variable_to_string(variable_type, var_value):
     if variable_type.__name__ in ITER_LIKE_TYPES:
         # if interator like then make a custom string - we do not want to mess with iterators
         return 'Iterator of type: %s' % variable_type
-    elif variable_type is dict \
-            or variable_type.__name__ in LIST_LIKE_TYPES:
-        # if we are a collection then we do not want to use built in string as this can be very
-        # large, and quite pointless, instead we just get the size of the collection
-        return 'Size: %s' % len(var_value)
-    else:
-        try:
-            # everything else just gets a string value
-            return str(var_value)
-        except Exception:
-            # it is possible for str to fail if there is a custom __str__ function
-            return f'{type(var_value)}@{id(var_value)}'
+    try:
+        if variable_type is dict \
+                or variable_type.__name__ in LIST_LIKE_TYPES:
+            # if we are a collection then we do not want to use built in string as this can be very
+            # large, and quite pointless, instead we just get the size of the collection
+            return 'Size: %s' % len(var_value)
+        # everything else just gets a string value
+        return str(var_value)
+    except BaseException:
+        # it is possible for str (or len) to fail if there is a custom __str__ function, we cannot know what
+        # user code will raise, and it must never abort the collection of the other variables
+        return f'{type(var_value)}@{id(var_value)}'
 
 
 def process_variable(var_collector: Collector, node: NodeValue) -> VariableResponse:
@@ -288,7 +304,13 @@ def process_child_nodes(
             var_collector.append_child(variable_id, child)
 
     # scan the child based on type
-    return find_children_for_parent(var_collector, VariableParent(), var_value, variable_type)
+    try:
+        return find_children_for_parent(var_collector, VariableParent(), var_value, variable_type)
+    except BaseException:
+        # inspecting user objects can run user code (__getattribute__, __dict__, __iter__), if that fails we
+        # record the variable without children rather than lose the snapshot
+        logging.debug("Cannot collect children of type %s", variable_type)
+        return []
 
 
 def correct_names(name, val):
@@ -320,15 +342,16 @@ def find_children_for_parent(var_collector: Collector, parent_node: ParentNode, 
         return process_dict_breadth_first(parent_node, variable_type.__name__, value)
     elif variable_type.__name__ in LIST_LIKE_TYPES:
         return process_list_breadth_first(var_collector, parent_node, value)
-    elif isinstance(value, Exception):
+    elif issubclass(variable_type, Exception):
         return process_list_breadth_first(var_collector, parent_node, value.args)
-    elif hasattr(value, '__class__'):
-        return process_dict_breadth_first(parent_node, variable_type.__name__, value.__dict__, correct_names)
-    elif hasattr(value, '__dict__'):
-        return process_dict_breadth_first(parent_node, variable_type.__name__, value.__dict__)
-    else:
-        logging.debug("Unknown type processed %s", variable_type)
-        return []
+
+    # not every object has an attribute dictionary (slots, builtin types, generators etc.)
+    attributes = getattr(value, '__dict__', None)
+    if isinstance(attributes, dict):
+        return process_dict_breadth_first(parent_node, variable_type.__name__, attributes, correct_names)
+
+    logging.debug("Unknown type processed %s", variable_type)
+    return []
 
 
 def process_dict_breadth_first(parent_node, type_name, value, func=lambda x, y: y) -> List[Node]:
@@ -346,9 +369,13 @@ def process_dict_breadth_first(parent_node, type_name, value, func=lambda x, y: 
     :return (list): the collected child nodes
     """
     # we wrap the keys() in a call to list to prevent concurrent changes
-    return [Node(value=NodeValue(func(type_name, key), value[key], key), parent=parent_node) for key in
-            list(value.keys()) if
-            key in value]
+    nodes = []
+    for key in list(value.keys()):
+        if key in value:
+            # keys are not always strings (e.g. {1: 'one'}), the variable name has to be
+            name = key if isinstance(key, str) else safe_str(key)
+            nodes.append(Node(value=NodeValue(func(type_name, name), value[key], name), parent=parent_node))
+    return nodes
 
 
 def process_list_breadth_first(var_collector: Collector, parent_node: ParentNode, value) -> List[Node]:
